@@ -57,3 +57,20 @@ def CtxAccepts (d : DFA Nat) (rest : List Nat) : Prop :=
   (∃ s n t, reachN d 0 rest = some s ∧ n ≤ d.length ∧ eoiChain d n s = some t ∧ (d.st t).accepting ≠ [])
 
 end Lexgen
+
+namespace Lexgen
+
+/-! ## `simplify` and `add_dfa` -/
+
+/-- every transition target of an (unsimplified) DFA is a state -/
+def TargetsInRange (d : DFA Nat) : Prop := ∀ s, s < d.length → ∀ t ∈ DFA.succs (d.st s), t < d.length
+
+/-- index of a kept state after the removed (transition-less, non-initial) states are dropped -/
+def newIdx (d : DFA Nat) (s : Nat) : Nat := s - removedBelow (emptyStates d) s
+
+/-- the configuration a state of the unsimplified DFA becomes: a removed state is the terminal
+configuration carrying its accept list -/
+def cfgOf (d : DFA Nat) (s : Nat) : Cfg :=
+  if (emptyStates d).contains s then .term (d.st s).accepting else .st (newIdx d s)
+
+end Lexgen
